@@ -52,6 +52,8 @@ class Binder:
         self.problems = []
         self.stats = {"selects": 0, "ctes": 0, "derived": 0, "refs_checked": 0, "refs_open": 0}
 
+    ambiguous = None
+
     def problem(self, kind, detail):
         self.problems.append({"kind": kind, "detail": detail})
 
@@ -287,6 +289,9 @@ class Binder:
             if any(cols.has(c) for (_, cols) in scope):
                 if any(cols.open for (_, cols) in scope):
                     self.stats["refs_open"] += 1
+                n = sum(cols.names.count(c.lower()) for (_, cols) in scope)
+                if n > 1:
+                    self.ambiguous.append("%s: %r names %d columns in scope" % (where, c, n))
                 return
             self.problem("unresolved_column", "%s: column %r is in no relation in scope %r" % (where, c, [a for a, _ in scope]))
             return
@@ -306,15 +311,20 @@ class Binder:
             self.problem("unresolved_column", "%s: relation %r has columns %r, not %r" % (where, t, rel[0].names[:12], c))
         elif any(cols.open for cols in rel):
             self.stats["refs_open"] += 1
+        if sum(cols.names.count(c.lower()) for cols in rel) > 1:
+            # the relation exposes two columns of that name (SELECT a.*, b.* in a sub-query): engines either
+            # reject the reference or silently take the first
+            self.ambiguous.append("%s: %s.%s names %d columns of that relation" % (where, t, c, sum(cols.names.count(c.lower()) for cols in rel)))
 
 
 def bind(ast, schema=None):
     """ast: the JSON list of statements from the worker's sqlparse op."""
     b = Binder(schema)
+    b.ambiguous = []
     if not isinstance(ast, list) or len(ast) != 1 or not isinstance(ast[0], dict) or "Query" not in ast[0]:
         return {"problems": [{"kind": "not_single_query", "detail": "statement is not exactly one query"}], "stats": b.stats}
     try:
         b.query(ast[0]["Query"], {})
     except Exception as ex:   # monitor bug => no verdict from it
-        return {"problems": [], "stats": b.stats, "monitor_error": repr(ex)}
-    return {"problems": b.problems, "stats": b.stats}
+        return {"problems": [], "stats": b.stats, "monitor_error": repr(ex), "ambiguous": []}
+    return {"problems": b.problems, "stats": b.stats, "ambiguous": b.ambiguous}
